@@ -51,7 +51,6 @@ def harness_cfg(c):
         "lifo": bool(c.get("Lifo", False)),
         "npre": c.get("NPre", 0), "npost": c.get("NPost", 0), "npc": c.get("NPc", 0),
         "async_pre": c.get("AsyncPre", []), "async_post": c.get("AsyncPost", []), "async_pc": c.get("AsyncPc", []),
-        "create_to": c.get("CreateTO", "none"), "recycle_to": c.get("RecycleTO", "none"),
         "has_runtime": bool(c.get("HasRuntime", True)),
     }
 
